@@ -15,7 +15,7 @@ LEVEL = "exploration"
 RULE = ("hostile inputs - random bytes (several distributions, 0..64 KiB), valid streams with bit flips / byte inserts / deletes "
         "/ splices / truncation, and structure-aware hostile streams from the independent wire encoder (declared frame, row and "
         "string lengths up to 2^63, table sizes up to 2^32, 10^5 entries, quoted triples nested past the protobuf recursion "
-        "limit, options rows in odd places, 10^5 empty frames, invalid UTF-8, unknown fields, groups) - are fed from BytesIO, "
+        "limit, options rows in odd places, 10^3..10^6 empty frames alone and in front of a well-formed frame (3*10^5 of them always through all six entry points, 10^6 through two), invalid UTF-8, unknown fields, groups) - are fed from BytesIO, "
         "real files and non-seekable raw / buffered sources to the six parse entry points inside a watchdogged child process with faulthandler. Per input the "
         "child journals start/end, outcome, CPU time, a logical step count (sys.monitoring PY_START inside pyjelly) and the "
         "growth of the resident high-water mark. Violations: interpreter killed by a signal; a non-Exception BaseException; "
@@ -144,8 +144,8 @@ def hostile(rng):
         rng.shuffle(rows)
         return kind, wire.enc_stream([{"rows": rows[:rng.randint(1, 5)]}, {"rows": rows}], True)
     if kind == "empty-frames":
-        n = rng.choice([1000, 100000])
-        tail = rng.choice([b"", head, wire.enc_varint(big)])
+        n = rng.choice([1000, 100000, 300_000, 1_000_000])
+        tail = rng.choice([b"", head, wire.enc_varint(big), valid_tail()])
         return kind, b"\x00" * n + tail
     if kind == "bad-utf8":
         row = wire.tag(9, 2) + wire.enc_varint(6) + wire.tag(2, 2) + wire.enc_varint(4) + b"\xff\xfe\xc0\x80"
@@ -174,11 +174,21 @@ def hostile(rng):
     return "options-repeat-flood", wire.enc_stream([{"rows": rows}], True)
 
 
-def make_inputs(rng, n: int) -> list:
+def valid_tail() -> bytes:
+    """One well-formed frame: options, a name and a triple (what follows a long run of keep-alive frames)."""
+    rows = [("options", _opts()), ("name", {"id": 0, "value": "urn:x"}),
+            ("triple", {"s": ("iri", 0, 0), "p": ("iri", 0, 1), "o": ("bnode", "b")})]
+    return wire.enc_stream([{"rows": rows}], True)
+
+
+def make_inputs(rng, n: int, first_batch: bool = False) -> list:
     out = []
     for k in range(n):
         x = rng.random()
-        if x < .3:
+        if first_batch and k < 2:
+            # always present: a long run of empty (keep-alive) frames in front of a well-formed frame
+            cls, name, data = "hostile", "empty-frames", b"\x00" * (300_000 if k == 0 else 1_000_000) + valid_tail()
+        elif x < .3:
             cls, data, name = "random", random_bytes(rng), "random"
         elif x < .65:
             cls, data, name = "mutated", mutated(rng), "mutated"
@@ -186,6 +196,8 @@ def make_inputs(rng, n: int) -> list:
             name, data = hostile(rng)
             cls = "hostile"
         entries = ["generic:flat"] + rng.sample(ENTRY_NAMES[1:], 2)
+        if first_batch and k < 2:
+            entries = list(ENTRY_NAMES) if k == 0 else ["generic:flat", "rdflib:grouped"]
         out.append({"i": k, "class": cls, "name": name, "hex": data.hex(), "entries": entries,
                     "source": rng.choice(["file", "file", "bytesio", "bytesio", "bytesio", "raw-nonseekable", "buffered-nonseekable"]),
                     "len": len(data)})
@@ -274,7 +286,7 @@ def run_shard(ctx):
         while not ctx.out_of_time():
             rng = ctx.rng("batch", b)
             b += 1
-            inputs = make_inputs(rng, 60 if ctx.tier == "quick" else 150)
+            inputs = make_inputs(rng, 60 if ctx.tier == "quick" else 150, first_batch=(b == 1 and ctx.shard == 0))
             pending = list(inputs)
             guard = 0
             while pending and guard < 40 and not ctx.out_of_time():
